@@ -39,13 +39,17 @@ def main():
     jout = None
     if '--json' in names:
         i = names.index('--json'); jout = names[i + 1]; del names[i:i + 2]
+    jobs = 1
+    if '-j' in names:
+        i = names.index('-j'); jobs = int(names[i + 1]); del names[i:i + 2]
     allres = []
     pats = sorted(glob.glob(f'{VERIF}/mutants/*.patch')) + sorted(glob.glob(f'{VERIF}/mutants/benign/*.patch'))
     if names:
         pats = [p for p in pats if os.path.basename(p)[:-6] in names]
     bad = 0
-    for p in pats:
-        r = run_one(p, '/benign/' in p)
+    from concurrent.futures import ThreadPoolExecutor
+    tp = ThreadPoolExecutor(max_workers=jobs)
+    for r in tp.map(lambda p: run_one(p, '/benign/' in p), pats):
         allres.append(r)
         if jout:
             json.dump(allres, open(jout, 'w'), indent=1)
